@@ -135,12 +135,19 @@ def overvalent(g):
 
 # a rule of the pool: (Z1, Z2, bond order it applies to, new order or None = scission)
 def apply_rule(g, rule):
-    z1, z2, old, new = rule
+    z1, z2, old, new = rule[:4]
+    z3 = rule[4] if len(rule) > 4 else None       # a third pattern atom: single-bonded to the z2 end, not the z1 end itself
     out = []
     for u, v, d in list(g.edges(data=True)):
         zu, zv = g.nodes[u]['Z'], g.nodes[v]['Z']
         if d['o'] != old or {zu, zv} != {z1, z2} or (z1 != z2 and False):
             continue
+        if z3 is not None:
+            def third(a, b):
+                return g.nodes[a]['Z'] == z1 and g.nodes[b]['Z'] == z2 and any(
+                    w != a and g.nodes[w]['Z'] == z3 and g[b][w]['o'] == 1 for w in g[b])
+            if not (third(u, v) or third(v, u)):
+                continue
         h = g.copy()
         if new is None:
             h.remove_edge(u, v)
